@@ -33,7 +33,8 @@ def tag_of(body):
 
 
 def run_scenario(job):
-    sid, seed, policy, ncallers, nreq, wrap, reconnect = job
+    sid, seed, policy, ncallers, nreq, wrap, reconnect = job[:7]
+    instant = job[7] if len(job) > 7 else False
     hsmsrun.quiet_logging()
     simrt.install()
     import secsgem.common.protocol as cp
@@ -52,6 +53,8 @@ def run_scenario(job):
         proto = ep.protocol
         outstanding = {}   # tag -> sys (as seen on the wire)
         unsol = [0]
+        answered = set()
+        rng_i = random.Random(seed ^ 0x1257)
 
         def on_msg(d):
             h = d["message"].header
@@ -68,6 +71,11 @@ def run_scenario(job):
                     t = tag_of(fr["body"])
                     ev.append({"e": "Out", "sys": format(fr["system"], "08x"), "tag": f"t{t}"})
                     outstanding[t] = fr["system"]
+                    if instant and rng_i.random() < 0.6:
+                        # a fast peer: the reply is on its way before the sending thread has even returned from the send
+                        answered.add(t)
+                        ev.append({"e": "InReply", "sys": format(fr["system"], "08x"), "tag": f"t{t}"})
+                        ep.link.feed(link.hsms_frame(stype=0, system=fr["system"], session=0, stream=1, function=4, body=body_tag(t)))
 
         def select():
             ep.link.connect()
@@ -95,7 +103,6 @@ def run_scenario(job):
         ths = [simrt.Thread(target=caller, args=(c,), name=f"caller{c}") for c in range(1, ncallers + 1)]
         for th in ths:
             th.start()
-        answered = set()
         never = set()
         did_reconnect = False
         rounds = 0
@@ -150,7 +157,8 @@ def run_scenario(job):
 
     randint = (lambda a, b: b - 1) if wrap else None
     s = simrt.run(main, seed=seed, policy=policy, switch_prob=0.3, line_funcs=line_funcs, max_vtime=1e5,
-                  wall_timeout=120, randint=randint, pct_depth=3, pct_horizon=400)
+                  wall_timeout=120, randint=randint, pct_depth=3, pct_horizon=400,
+                  wake_lag=(("caller",), 0.4, 0.02) if instant else None)
     rec["outcome"] = s.outcome
     if s.outcome != "done":
         rec["wedge"] = s.wedge_info
@@ -170,7 +178,7 @@ def run(ctx: Ctx):
     n = 120 if ctx.quick else 1500
     for i in range(1, n + 1):
         pol = ["pct", "random", "pct", "fifo"][i % 4]
-        jobs.append((i, rng.randrange(1 << 30), pol, rng.choice([2, 2, 3, 4]), rng.choice([1, 2]), i % 5 == 0, i % 3 == 0))
+        jobs.append((i, rng.randrange(1 << 30), pol, rng.choice([2, 2, 3, 4]), rng.choice([1, 2]), i % 5 == 0, i % 3 == 0, i % 4 in (1, 2)))
     recs = pmap(run_scenario, jobs)
     bad = [r for r in recs if r["outcome"] != "done" or r.get("errors")]
     for r in bad[:3]:
@@ -200,7 +208,7 @@ def run(ctx: Ctx):
                            "what": f"TxMon clause '{v['clause']}' at event {v['at']} "
                                    f"({r['ev'][v['at'] - 1] if v['at'] else 'end of run'}); callers={r['cfg'][0]}"})
     ctx.rule = ("scenarios = (callers 2-4, 1-2 requests each, counter start incl. wrap-around, optional reconnect) x peer behaviour "
-                "(reply order/lateness/omission, unsolicited primaries) x thread schedule (PCT depth 3 / random / fifo with line-level "
+                "(reply order/lateness/omission, instant replies sent from inside the peer's receive of the request while the requesting thread is slow to resume, unsolicited primaries) x thread schedule (PCT depth 3 / random / fifo with line-level "
                 "preemption in the counter, queue and dispatcher code); non-trivial = at least two callers received replies")
     ctx.assumptions += ["S1F3/S1F4 bodies carry the request tag; system bytes compared as seen on the wire"]
     return ctx.finish()
